@@ -40,7 +40,7 @@ def _model(flat):
 
 
 KIND_SRC = {"ok": "MOk 2 0", "fail": "MOk 1 0", "syntax": "MBroken", "cycle": "MOk 2 0", "decorated": "MOk 0 1",
-            "gen": "MOk 0 1", "genfail": "MOk 0 1", "inner": "MOk 1 0"}
+            "gen": "MOk 0 1", "genfail": "MOk 0 1", "inner": "MOk 1 0", "markreg": "MOk 1 0", "markuse": "MBroken"}
 
 
 def session_model(flat, res):
@@ -65,6 +65,11 @@ def run(out, tier, seed, proof):
     seqs.append([{"kind": "decorated", "kwargs": {"capture": "no"}}, {"kind": "decorated", "kwargs": {"capture": "no"}}])   # F11 witness
     # the same project three times with an in-memory database: nothing is remembered from build to build
     seqs.append([{"kind": "inner", "kwargs": {"capture": "no"}}, {"kind": "ok", "kwargs": {"capture": "fd"}}, {"kind": "inner", "kwargs": {"capture": "sys", "force": True}}])
+    # a database that cannot be created (configuration phase fails after the plugins were configured)
+    seqs.append([{"kind": "ok", "kwargs": {"capture": "fd", "baddb": True}}, {"kind": "ok", "kwargs": {"capture": "no"}},
+                 {"kind": "fail", "kwargs": {"capture": "sys", "baddb": True}}, {"kind": "ok", "kwargs": {"capture": "fd", "baddb": True}}])
+    # a marker registered by one project and used, unregistered, by the next one
+    seqs.append([{"kind": "markreg", "kwargs": {"capture": "no"}}, {"kind": "markuse", "kwargs": {"capture": "no"}}, {"kind": "ok", "kwargs": {"capture": "no"}}])
     seqs.append([{"kind": "ok", "kwargs": {"capture": "no", "memdb": True}} for _ in range(3)])
     seqs.append([{"kind": "ok", "kwargs": {"capture": "fd", "memdb": True}}, {"kind": "fail", "kwargs": {"capture": "fd", "memdb": True}},
                  {"kind": "ok", "kwargs": {"capture": "fd", "memdb": True}}])
